@@ -13,7 +13,7 @@ def NOT_REPRODUCED(msg=''):
     print('not reproduced', msg); sys.exit(0)
 
 
-segs = [(0j, (0.7648421872844885+0.644217687237691j)), ((-0+0j), (-0.8322936730942848+1.8185948536513634j)), (-0j, (-1.9749595398177298-0.3154913882864964j))]
+segs = [(0j, (1.529684374568977+1.288435374475382j)), ((-0+0j), (-0.8322936730942848+1.8185948536513634j)), (-0j, (-1.9749595398177298-0.3154913882864964j))]
 z = 0j
 p = Path(*[Line(a, b) for a, b in segs])
 (dmin, tmin, kmin), (dmax, tmax, kmax) = p.radialrange(z)
@@ -23,5 +23,12 @@ if kmin is None or kmax is None: REPRODUCED('no segment index returned: %r' % (p
 if abs(dmin - gmin) > 1e-9 or abs(dmax - gmax) > 1e-9: REPRODUCED('path radialrange %r but per-segment extremes are %r / %r' % (p.radialrange(z), gmin, gmax))
 if abs(abs(p[kmin].point(tmin) - z) - dmin) > 1e-9 or abs(abs(p[kmax].point(tmax) - z) - dmax) > 1e-9: REPRODUCED('index/t do not attain the distance')
 if closest_point_in_path(z, p) != p.radialrange(z)[0] or farthest_point_in_path(z, p) != p.radialrange(z)[1]: REPRODUCED('closest/farthest_point_in_path disagree')
+# the same reduction on paths that contain closed loops (start == end) and exactly-on-path query points
+loop = CubicBezier(10+0j, 16+6j, 4+6j, 10+0j)
+for q_, zz in ((Path(Line(0j, 10+0j), loop, Line(10+0j, 20+0j)), 10+5j), (Path(loop), 10+9j), (Path(Line(0j, 4+0j), Line(4+0j, 4+30j)), 4+0j)):
+    (a, ta, ka), (b, tb, kb) = q_.radialrange(zz)
+    per = [s_.radialrange(zz) for s_ in q_]
+    if ka is None or kb is None or abs(a - min(r_[0][0] for r_ in per)) > 1e-9 or abs(b - max(r_[1][0] for r_ in per)) > 1e-9:
+        REPRODUCED('Path.radialrange(%r) of %r = %r; per-segment results %r' % (zz, q_, q_.radialrange(zz), per))
 
 NOT_REPRODUCED()
